@@ -29,7 +29,8 @@ FRAG = ["1", "2", "10", "0", "3,5", "1.000", "-5", "+7", "1k", "2M", "0x1F", "0b
         "[NUMBER:1]", "[NUMBER:abc]", "[PERCENT:x]", "[TIME:90000]", "[TIME:abc]", "[MONEY:12]", "[MONEY:1;usd]", "[MONEY:x;usd]",
         "[OPERATOR:+]", "[FOO:1]", "[", "]", "{NUMBER:n}", "{TEXT:t:abc}", "{GROUP:g:conversion_group}", "{", "}", ":", ";",
         "#", "# comment jan", "1,2,3%", "1.2.3", ",", ".", "..", "é", "ı", "İ", "ß", "ǰ", "ŉ", "ΐ", "Σ", "ς", "σ", "😀", "́", "\t", " ",
-        "1609459200", "at 24", "at 10", "- 3 months", "+ 1 month", "+ 11 months"]
+        "1609459200", "at 24", "at 10", "- 3 months", "+ 1 month", "+ 11 months", "10:00 + 24 hours", "10:00 + 2 days",
+        "10:00 - 25 hours", "23:59 + 1 week", "36 hours", "25 hours", "1 week", "1 day 3 hours", "12:30 + 100000 seconds"]
 ALPHA = list("0123456789") * 3 + list("+-*/()=%#:;.,[]{}$ ") * 2 + list("abcdefxyzEFGMkTPZY") + ["é", "ı", "İ", "ß", "ǰ", "Σ", "😀", "\t"]
 LANGS = ["en"] * 6 + ["tr"] * 2 + ["xx", "", "EN", "de"]
 SEPS = [",", ".", "", " ", "'", "..", "ab", "1", "%", "é", "#"]
@@ -91,7 +92,19 @@ def generate(rng, tier):
     for t in CORPUS:
         for lang in ("en", "tr", "xx"):
             cases.append(exec_case(t, lang, kind="corpus"))
-    while len(cases) < n:
+    # re-used sessions: the same and different texts set repeatedly; every execute_session after a set_text must give
+    # status true and one slot per line of that text
+    n_sess = 40 if tier == "quick" else 600
+    for k in range(n_sess):
+        ops = [{"op": "new_session", "sid": 1}, {"op": "set_language", "sid": 1, "lang": rng.choice(["en", "en", "tr", "xx"])}]
+        prev = None
+        for _ in range(rng.randint(2, 5)):
+            text = prev if (prev is not None and rng.random() < 0.4) else gen_text(rng)
+            ops.append({"op": "set_text", "sid": 1, "text": text})
+            ops.append({"op": "exec_session", "sid": 1})
+            prev = text
+        cases.append({"ops": ops, "meta": {"kind": "session"}})
+    while len(cases) < n + n_sess:
         text = gen_text(rng)
         lang = rng.choice(LANGS)
         pre = gen_pre(rng)
@@ -100,8 +113,12 @@ def generate(rng, tier):
 
 
 def nontrivial(c, rec):
-    lines = last_lines(rec)
-    return bool(lines) and any(l is not None for l in lines)
+    if rec is None or rec.get("hang") or rec.get("crash"):
+        return False
+    for o in rec["obs"]:
+        if isinstance(o, dict) and o.get("lines") and any(l is not None for l in o["lines"]):
+            return True
+    return False
 
 
 def spec_check(c, rec, header):
@@ -114,12 +131,21 @@ def spec_check(c, rec, header):
     for i, o in enumerate(rec["obs"]):
         if "panic" in o:
             return "operation %d (%s) panicked: %s" % (i, c["ops"][i]["op"], str(o["panic"])[:300])
-    obs = rec["obs"][-1]
-    text = c["ops"][-1]["text"]
-    if obs.get("status") is not True:
-        return "execute returned status %r" % obs.get("status")
-    if len(obs["lines"]) != count_lines(text):
-        return "%d result slots for a text of %d lines" % (len(obs["lines"]), count_lines(text))
+    pending = {}
+    for i, (op, obs) in enumerate(zip(c["ops"], rec["obs"])):
+        if op["op"] == "set_text":
+            pending[op["sid"]] = op["text"]
+            continue
+        if op["op"] in ("exec", "exec_fresh"):
+            text = op["text"]
+        elif op["op"] == "exec_session" and op["sid"] in pending:
+            text = pending.pop(op["sid"])
+        else:
+            continue
+        if obs.get("status") is not True:
+            return "operation %d (%s) returned status %r" % (i, op["op"], obs.get("status"))
+        if len(obs["lines"]) != count_lines(text):
+            return "operation %d (%s): %d result slots for a text of %d lines" % (i, op["op"], len(obs["lines"]), count_lines(text))
     return None
 
 
